@@ -75,12 +75,15 @@ def run_pairing(task):
             viol(I, z3.BoolVal(True), 'balanced-tags-rejected', 'balanced sequence rejected')
             continue
         got = [block_fields(prog, b) for b in val.f[0].items]
-        if sorted(g['name'] for g in got) != sorted(e['name'] for e in exp):
+        if sorted(g['name'] or '' for g in got) != sorted(e['name'] or '' for e in exp):
             viol(I, z3.BoolVal(True), 'wrong-set-of-blocks', 'blocks %s, expected %s' % ([g['name'] for g in got], [e['name'] for e in exp]))
             continue
+        # unnamed (bare) tags are told apart by where they start: pair in source order when names repeat
+        names = [e['name'] for e in exp]
         by_name = {e['name']: e for e in exp}
-        for g in got:
-            e = by_name[g['name']]
+        in_order = sorted(exp, key=lambda e: e['order'])
+        for gi, g in enumerate(got):
+            e = by_name[g['name']] if names.count(g['name']) == 1 else in_order[gi]
             for fld in ('lt', 'gt', 'content_start', 'content_end', 'content_bytes'):
                 diffs = [ne(a, b) for a, b in zip(g[fld], e[fld])]
                 viol(I, zor(diffs), 'block-%s-wrong' % fld.replace('_', '-'),
@@ -116,9 +119,9 @@ def ref_list(src):
     s = src.decode('latin1')
     events = []
     for cm in re.finditer(r'/\*.*?\*/', s, re.S):
-        for tm in re.finditer(r'<block name="(\w+)">|</\s*block\s*>', cm.group(0)):
+        for tm in re.finditer(r'<block(?: name="(\w+)")?>|</\s*block\s*>', cm.group(0)):
             off = cm.start() + tm.start()
-            events.append((off, tm.group(1)))
+            events.append((off, None if tm.group(0).startswith('</') else (tm.group(1) or '(unnamed)')))
     stack, out = [], []
     for off, name in events:
         if name is not None:
@@ -238,7 +241,7 @@ def main(tier):
         src = materialize(texts)
         obs = observe_list(binary, src)
         want = ref_list(src)
-        if obs.get('blocks') == want and sorted(n for _l, _c, n in want) == sorted(s['blocks']):
+        if obs.get('blocks') == want and sorted(n for _l, _c, n in want) == sorted(x or '(unnamed)' for x in s['blocks']):
             agg.validated += 1
         else:
             msg = 'real %s vs reference %s (mirsym blocks %s) on %s' % (obs, want, s['blocks'], s['seq'])
